@@ -14,7 +14,6 @@ limitations under the License.
 package streams
 
 import (
-	"errors"
 	"fmt"
 	"io"
 	"sync"
@@ -97,7 +96,7 @@ func (t *TeeReadCloser) Read(p []byte) (n int, err error) {
 	}
 
 	n, err = t.r.Read(p)
-	if errors.Is(err, io.EOF) {
+	if err == io.EOF { //nolint:errorlint
 		t.eof = true
 	}
 	if n > 0 {
